@@ -182,3 +182,19 @@ Inductive breaches (S : schema) : site -> tref -> tdkey -> typedef -> Prop :=
 Definition members_ok (P : site -> tref -> yangtype -> Prop) (lks : list (site * tref)) (mss : list (list yangtype))
   : Prop :=
   Forall2 (fun l ms => Forall2 (fun u yu => P (fst l) u yu) (t_members (snd l)) ms) lks mss.
+
+(* ------------------------------------------------------------------ resolvable references
+   A reference denotes a type of base kind k when its name is built in, or is bound to a typedef whose own type
+   statement (in the typedef's scope) is resolvable, when its type statement passes the local checks, and when
+   every union member type it lists is resolvable in the same scope.  Derivations are finite, so a typedef that is
+   based on itself -- directly, through other typedefs or through union members -- is not resolvable. *)
+Inductive resolvable (S : schema) : site -> tref -> kind -> Prop :=
+| RS_base : forall st t k,
+    lookup_type S st (t_name t) = LBuiltin k -> link_ok k true t ->
+    (forall u, In u (t_members t) -> exists k', resolvable S st u k') ->
+    resolvable S st t k
+| RS_step : forall st t key td k,
+    lookup_type S st (t_name t) = LFound key td ->
+    resolvable S (site_of key) (td_type td) k -> link_ok k false t ->
+    (forall u, In u (t_members t) -> exists k', resolvable S st u k') ->
+    resolvable S st t k.
